@@ -95,6 +95,7 @@ def myokit_corpus(chk, pid, n_quick=300, kinds=None):
     chk.replayed += len(kept)
     chk.extra["myokit_corpus"] = {"models": len(out), "kept": len(kept), "discarded_rendering": len(out) - len(kept),
                                   "compared": sum(o["compared"] for o in out),
+                                  "compared_with_the_unsaved_model": sum(o.get("unsaved_compared", 0) for o in out),
                                   "discard_reasons": {}}
     for o in out:
         if o["discarded"]:
@@ -103,6 +104,8 @@ def myokit_corpus(chk, pid, n_quick=300, kinds=None):
     if len(kept) < 0.9 * len(out):
         raise core.MachineryFailure(f"{len(out) - len(kept)} of {len(out)} generated Myokit models were discarded: "
                                     f"{chk.extra['myokit_corpus']['discard_reasons']}")
+    if chk.extra["myokit_corpus"]["compared_with_the_unsaved_model"] == 0:
+        raise core.MachineryFailure("no value of an imported model was compared before saving / after reload")
     for o in out:
         for p in o["problems"]:
             if kinds is not None and p["kind"] not in kinds:
